@@ -218,7 +218,7 @@ def run(c):
         from translator import gen_rewriter
         lib.write_if_changed(os.path.join(lib.COQ, "Gen", "RewriterTable_gen.v"), gen_rewriter.generate(lib.REPO))
         c.obligation("translator: behaviour table of _extract_metrics_and_dimensions / _resolve_column (330 scripted SELECT lists, scripted sqlglot classes and graph) regenerated", True, "translator")
-        same = gen_rewriter.table(lib.REPO) == gen_rewriter.table(lib.REPO, real=True)
+        same = gen_rewriter.table(lib.REPO) == gen_rewriter.table(lib.REPO, real=True) and gen_rewriter.filter_table(lib.REPO) == gen_rewriter.filter_table(lib.REPO, real=True)
         c.obligation("translator validation: interpreted _extract_metrics_and_dimensions == the real method under CPython on the same scripted SELECT lists", same, "translator")
     except Exception as e:
         c.obligation("translator: behaviour table of _extract_metrics_and_dimensions regenerated", False, "translator", repr(e)[-900:])
